@@ -233,6 +233,11 @@ func adjustTarget(s State, blockTimestamp time.Time, targetTimestamp time.Time) 
 		}
 		elapsed := int64(blockTimestamp.Sub(targetTimestamp) / time.Second)
 		expected := blockInterval * int64(ancestorDepth)
+		if expected == 0 && elapsed == 0 {
+			// only possible with a sub-second block interval; the ratio is
+			// undefined (and would divide by zero below), so do not adjust
+			return s.ChildTarget
+		}
 		// clamp
 		if r := float64(expected) / float64(elapsed); r > 25.0/10.0 {
 			expected, elapsed = 25, 10
